@@ -191,6 +191,11 @@ class Writer:
                 f"(in {segment_addresses_str})."
             )
 
+        if segment_start + segment_length >= (1 << 64):
+            raise FlipJumpWriteFjmException(
+                f"the segment must end inside the 64bit word-address space (in {segment_addresses_str})."
+            )
+
         if data_length % 2 == 1:
             raise FlipJumpWriteFjmException(
                 f"data-length must be even - an integer number of ops (in {segment_addresses_str})."
